@@ -306,6 +306,14 @@ class ParallelBeamGeometry(Geometry):
 
         normal = self.detector.surface_normal(dparam)  # shape (d, ndim)
 
+        # Parameters of different rank: pad the one of lower rank with
+        # leading axes (NumPy broadcasting rule)
+        extra = (normal.ndim - 1) - (matrix.ndim - 2)
+        if extra > 0:
+            matrix = matrix[(None,) * extra]
+        elif extra < 0:
+            normal = normal[(None,) * (-extra)]
+
         # Perform matrix-vector multiplication along the last axis of both
         # `matrix` and `normal` while "zipping" all axes that do not
         # participate in the matrix-vector product. In other words, the axes
